@@ -321,13 +321,22 @@ impl Gen {
     }
 }
 
-fn render(toks: &[String], r: &mut Rng) -> String {
+/// randomised layout; where it cannot change the tokenisation (a word followed by one of `; , { } ( ) < > = [ ] . :`, or one
+/// of those - except `:` - followed by a word) the separator is sometimes EMPTY.  Returns the text and, per token, whether
+/// it was glued to the next one.
+fn render(toks: &[String], r: &mut Rng) -> (String, Vec<bool>) {
+    let wordish = |t: &str| !t.is_empty() && t.chars().all(|c| c.is_ascii_alphanumeric() || c == '-' || c == '%' || c == '_') && !t.ends_with('-');
+    let punct = |t: &str| [";", ",", "{", "}", "(", ")", "<", ">", "=", "[", "]", "."].contains(&t);
     let mut s = String::new();
-    for t in toks {
+    let mut glued = vec![false; toks.len()];
+    for (i, t) in toks.iter().enumerate() {
         s.push_str(t);
+        let next = toks.get(i + 1).map(|x| x.as_str()).unwrap_or("");
+        let can_glue = (wordish(t) && (punct(next) || next == ":")) || (punct(t) && wordish(next));
+        if can_glue && r.below(4) == 0 { glued[i] = true; continue; }
         s.push_str(match r.below(14) { 0 => "\n", 1 => "  ", 2 => " /* c */ ", 3 => " // l\n", 4 => "\t", 5 => " /* a /* n */ b */ ", _ => " " });
     }
-    s
+    (s, glued)
 }
 
 const SWITCHES: [&str; 9] = ["empty-new-arguments", "fill-argument-anywhere", "named-results-rejected", "empty-type-bodies", "uppercase-words-in-identifiers", "borrow-of-an-identifier-only", "empty-use-items", "empty-include-with-items", "result-underscore-in-any-position"];
@@ -344,8 +353,9 @@ fn main() {
     let (mut texts, mut accepted, mut rejected) = (0u64, 0u64, 0u64);
     let mut findings = [0u64; 9];
     let mut first: [Option<String>; 9] = Default::default();
+    let mut kw_colon: (u64, Option<String>) = (0, None);
     let mut check = |toks: &[String], lay: &mut Rng, what: &str| {
-        let src = render(toks, lay);
+        let (src, glued) = render(toks, lay);
         texts += 1;
         let real = Document::parse(&src);
         let strict = Ref { t: toks, sw: sw_from(0) }.document();
@@ -356,6 +366,13 @@ fn main() {
             if !inside { println!("C12-BOUNDED VIOLATION: the error for a rejected text is not located inside the source ({e:?}); {what}; text: {src:?}"); std::process::exit(1); }
         } }
         if real.is_ok() != relaxed {
+            // recorded finding: a keyword written immediately before `:` is lexed as an identifier (`type: u8` is accepted,
+            // `type : u8` is not).  Only a text whose verdict is explained by exactly that reading is attributed to it.
+            let alt: Vec<String> = toks.iter().enumerate().map(|(i, t)| if KEYWORDS.contains(&t.as_str()) && glued[i] && toks.get(i + 1).map(|x| x == ":").unwrap_or(false) { "kwid".to_string() } else { t.clone() }).collect();
+            if alt != toks && (Ref { t: &alt, sw: sw_from(actual) }).document() == real.is_ok() {
+                kw_colon.0 += 1; if kw_colon.1.is_none() { kw_colon.1 = Some(src.clone()); }
+                return;
+            }
             println!("C12-BOUNDED VIOLATION: the parser {} a text that the grammar of LANGUAGE.md (with the recorded deviations) {}; {what}; tokens: {}", if real.is_ok() { "ACCEPTS" } else { "REJECTS" }, if relaxed { "derives" } else { "does not derive" }, toks.join(" "));
             if let Err(e) = &real { println!("  parser error: {e}"); }
             std::process::exit(1);
@@ -389,7 +406,13 @@ fn main() {
             for _ in 0..3 { let mut m = toks.clone(); let k = lay.below(pool.len()); m[i] = pool[k].clone(); check(&m, &mut lay, &format!("document #{d}, token {i} replaced by `{}`", pool[k])); }
         }
     }
+    // the layouts of the recorded lexer finding, for every keyword class of position
+    for c in ["package a:b ; import type : func ( ) ;", "package a:b ; import x as type : func ( ) ;", "package a:b ; interface i { type : func ( ) ; }", "package a:b ; let x = new a:b { import : y } ;", "package a:b ; record r { type : u8 }", "package a:b ; type f = func ( world : u8 ) ;"] {
+        let toks: Vec<String> = c.split(' ').map(|s| s.to_string()).collect();
+        for _ in 0..12 { check(&toks, &mut lay, "keyword before a colon"); }
+    }
     let mut any = false;
+    if let Some(f) = &kw_colon.1 { any = true; println!("FINDING keyword-before-colon-lexed-as-identifier {} texts, e.g. {:?}", kw_colon.0, f); }
     for b in 0..9 { if let Some(f) = &first[b] { any = true; println!("FINDING {} {} texts, e.g. {}", SWITCHES[b], findings[b], f); } }
     println!("C12-GRAMMAR {} {{\"bounded\": true, \"documents\": {n}, \"seed\": {seed}, \"texts\": {texts}, \"accepted\": {accepted}, \"rejected\": {rejected}, \"texts_in_a_recorded_deviation_class\": {:?}}}", if any { "findings" } else { "ok" }, findings);
     std::process::exit(if any { 3 } else { 0 });
